@@ -62,7 +62,9 @@ def op_catalog(rng, s):
     a(("get_queue_num", 17, "u64", vu.u64(rng.choice([0, 1, 2, 0x101, 0x8000, 0x8001, 2**64 - 1])), 0))
     a(("reset_device", 34, "ack", "", 0))
     a((f"set_vring_enable {h64(q)} {rng.choice([0, 1])}", 18, "ack", "", 0))
-    off = rng.choice([0, 1, 0x100, 0xfff, 0x1000]); sz = rng.choice([0, 1, 8, 0x100, 0xff0, 0x1000]); fl = rng.choice([0, 1, 2, 3, 4])
+    # (0xc, 0xff4): the largest window the API accepts (message body of exactly MAX_MSG_SIZE bytes, offset + size == 0x1000)
+    off, sz = rng.choice([(o_, s_) for o_ in (0, 1, 0x100, 0xfff, 0x1000) for s_ in (0, 1, 8, 0x100, 0xff0, 0x1000)] + [(0xc, 0xff4), (0, 0xff4), (0xc, 0xff3)] * 4)
+    fl = rng.choice([0, 1, 2, 3, 4])
     blen = rng.choice([sz, sz, sz, 0, 1, 8])
     a((f"get_config {h64(off)} {h64(sz)} {h64(fl)} {h64(blen)}", 24, "config",
        vu.config(off, sz, fl, bytes(rng.getrandbits(8) for _ in range(min(sz, 0x1000)))), 0))
@@ -95,7 +97,7 @@ def hout_for(rng, kind, fail_p):
     s = "h=ok" if ok else "h=fail"
     s += f",v={rng.choice([0, 1, 0x100, 0xffff, 2**32 - 1, 2**63, 2**64 - 1, rng.getrandbits(64)]):x}"
     if kind == "config":
-        s += ",b=%s" % rng.choice(["-", "00", "0102030405060708", "11" * 0x100, "22" * 0xff0])
+        s += ",b=%s" % rng.choice(["-", "00", "0102030405060708", "11" * 0x100, "22" * 0xff0, "33" * 0xff4, "33" * 0xff4, "44" * 0xff3])
     if kind == "shmem":
         s += ",b=%s" % rng.choice(["-", "0010000000000000", "0010000000000000" + "0000100000000000"])
     if kind == "devstate":
@@ -227,6 +229,7 @@ class FeFamily(Family):
                "get_queue_num": (17, vu.u64(2), 0), "get_vring_base 0": (11, C.le(0, 4) + C.le(7, 4), 0),
                "get_config 0 8 0 8": (24, vu.config(0, 8, 0, bytes(range(1, 9))), 0),
                "get_config 10 20 0 20": (24, vu.config(0x10, 0x20, 0, bytes(range(0x20))), 0),
+               "get_config c ff4 0 ff4": (24, vu.config(0xc, 0xff4, 0, bytes(range(256)) * 15 + bytes(244)), 0),
                "get_inflight_fd 1000 0 1 100": (31, vu.inflight(0x1000, 0, 1, 0x100), 1), "get_max_mem_slots": (36, vu.u64(8), 0),
                "check_device_state": (43, vu.u64(0), 0), "set_device_state_fd 0 0": (42, vu.u64(0x100), 0),
                "set_owner": (3, vu.u64(0), 0), "set_vring_num 0 100": (8, vu.u64(0), 0)}
